@@ -82,6 +82,7 @@ Theorem C01_escaped_path_pinned_refuted :
   exists p path rp, set_path p = Some (path, rp) /\
     count_byte "/"%byte (escaped_path_of path rp) <> count_byte "/"%byte p.
 Proof. exact escaped_path_pinned_refuted. Qed.
+Print Assumptions C01_escaped_path_pinned_refuted.
 
 (* --- query parameters --- *)
 Theorem C01_query_roundtrip : forall m,
@@ -197,6 +198,7 @@ Theorem C01_fields_h2_pinned_refuted :
   exists a ls, valid_method (a_method a) = false /\ fields_h2_pinned a = Sent ls /\
                In (bs ":method", bs "GE T") ls /\ fields_h2 a = Rejected.
 Proof. exact fields_h2_pinned_refuted. Qed.
+Print Assumptions C01_fields_h2_pinned_refuted.
 
 Theorem C01_crlf_nul_value_invalid : forall v,
   In CR v \/ In LF v \/ In x00 v -> valid_field_value v = false.
@@ -230,6 +232,7 @@ Print Assumptions C01_ctl_target_rejected.
 Theorem C01_h1_host_pinned_refuted :
   exists q w, valid_host_header (c_host q) = false /\ h1_head_pinned q [] = Sent w /\ h1_head q [] = Rejected.
 Proof. exact h1_host_pinned_refuted. Qed.
+Print Assumptions C01_h1_host_pinned_refuted.
 
 (* --- HTTP/2 and HTTP/3 emit the same field lines (no order list, no caller-written Cookie header) --- *)
 Theorem C01_cross_protocol_h2_h3 : forall q,
@@ -364,6 +367,7 @@ Theorem C01_shared_header_map_doubles_cookies :
       = bs "sid=1; sid=1" /\
     header_get (attempt_header (after_attempts ch cck 1 s)) (bs "Cookie") = bs "sid=1".
 Proof. exact shared_header_map_doubles_cookies. Qed.
+Print Assumptions C01_shared_header_map_doubles_cookies.
 
 (* HPACK state of one HTTP/2 connection, for ANY codec whose encoder and decoder stay in step:
    whichever requests are refused locally for their size (checked before anything is encoded),
@@ -390,6 +394,7 @@ Print Assumptions C01_authority_route_independent.
 Theorem C01_authority_empty_host_follows_route : forall url_host alt,
   writer_authority [] alt = alt /\ (alt <> url_host -> writer_authority [] alt <> writer_authority [] url_host).
 Proof. exact authority_empty_host_follows_route. Qed.
+Print Assumptions C01_authority_empty_host_follows_route.
 
 (* one Request object, any sequence of body setters and sends, any marshalling function: every
    send carries the last thing that was set, marshalled as it is at that send *)
@@ -408,6 +413,7 @@ Theorem C01_cached_marshalling_sends_stale_body :
                            end in run (mkBs None []) ops)
     <> described_bodies (fun v => v) [] ops.
 Proof. exact cached_marshalling_sends_stale_body. Qed.
+Print Assumptions C01_cached_marshalling_sends_stale_body.
 
 (* non-vacuity: a template with two holes, overlapping client/request keys and hostile values *)
 Example C01_nonvacuous :
